@@ -1754,6 +1754,11 @@ namespace link_layer {
             }
 
             defered_ll_control_pdu_ = write_buffer{ nullptr, 0 };
+
+            // The procedure is applied to the planned connection event (the instant). That connection
+            // event must not be moved to an earlier connection event by try_event_cancelation() anymore,
+            // as the procedure is not to be applied to connection events before the instant.
+            this->disarmable_connection_state_last_latency( 1 );
         }
 
         return result;
